@@ -197,7 +197,7 @@ def execute(case, t):
 
 SUBCHECKS = [
     SubCheck(name="stacking_bits_and_split_pad", strategy=stacking_case, execute=execute,
-             ambient=("debug_logging", "fp_errors_raise", "warnings_error"),     # a pure copy: no arithmetic, nothing to warn about
+             ambient=("debug_logging", "fp_errors_raise", "warnings_error", "mp_env"),     # a pure copy: no arithmetic, nothing to warn about
              budget={"quick": 2400, "thorough": 64000}, shards={"quick": 4, "thorough": 16},
-             modes=["jit"], min_nontrivial_fraction=0.5),
+             modes=["jit", "pyopt"], min_nontrivial_fraction=0.5),
 ]
